@@ -3,6 +3,7 @@ package main
 import (
 	"fmt"
 	"go/token"
+	"go/types"
 	"strings"
 
 	"golang.org/x/tools/go/ssa"
@@ -13,7 +14,11 @@ func init() {
 }
 
 // emitIdent names what an emitting call writes: "field:X", "prepared:G", "call:enableMouse(0)", …
-func emitIdents(p *Prog, in ssa.Instruction) []string {
+func emitIdents(p *Prog, in ssa.Instruction) []string { return emitIdentsBound(p, in, nil) }
+
+// emitIdentsBound: emitIdents with the arguments of mode calls seen through bind (helper parameter →
+// argument of the enclosing call).
+func emitIdentsBound(p *Prog, in ssa.Instruction, bind func(ssa.Value) ssa.Value) []string {
 	cc := callCommon(in)
 	if cc == nil {
 		return nil
@@ -63,11 +68,122 @@ func emitIdents(p *Prog, in ssa.Instruction) []string {
 		return out
 	case strings.HasSuffix(n, "tScreen).enableMouse"), strings.HasSuffix(n, "tScreen).enablePasting"):
 		name := n[strings.LastIndex(n, ".")+1:]
-		return []string{"call:" + name + "(" + valName(cc.Args[1]) + ")"}
+		a := cc.Args[1]
+		if bind != nil {
+			a = bind(a)
+		}
+		return []string{"call:" + name + "(" + valName(a) + ")"}
 	case strings.HasSuffix(n, "tScreen).enableFocusReporting"), strings.HasSuffix(n, "tScreen).disableFocusReporting"):
 		return []string{"call:" + n[strings.LastIndex(n, ".")+1:]}
 	}
+	// one method for both directions (`focusReporting(on bool)`): named by what the argument selects
+	if idx, ok := focusSwitch(p, cc.StaticCallee()); ok && idx < len(cc.Args) {
+		a := cc.Args[idx]
+		if bind != nil {
+			a = bind(a)
+		}
+		if v, isC := constBool(a); isC {
+			if v {
+				return []string{"call:enableFocusReporting"}
+			}
+			return []string{"call:disableFocusReporting"}
+		}
+		return []string{"call:focusReporting(" + valName(a) + ")"}
+	}
 	return nil
+}
+
+// focusSwitch: h is a screen method with a boolean parameter that writes the terminal's
+// focus-reporting "on" string where the parameter is true and the "off" string where it is false (one
+// TPuts of a value chosen between the two).  Returns the parameter's position.
+func focusSwitch(p *Prog, h *ssa.Function) (int, bool) {
+	if h == nil || h.Pkg != p.Tcell || len(h.Blocks) == 0 || recvTypeName(h) != "tcell.tScreen" {
+		return 0, false
+	}
+	idx := -1
+	for i, pa := range h.Params {
+		if bt, ok := pa.Type().Underlying().(*types.Basic); ok && bt.Kind() == types.Bool {
+			idx = i
+		}
+	}
+	if idx < 0 {
+		return 0, false
+	}
+	puts := callsIn(h, func(n string, _ *ssa.CallCommon) bool { return strings.HasSuffix(n, "tScreen).TPuts") })
+	if len(puts) != 1 {
+		return 0, false
+	}
+	phi, ok := derefCell(callCommon(puts[0]).Args[1]).(*ssa.Phi)
+	if !ok || len(phi.Edges) != 2 {
+		return 0, false
+	}
+	on, off := false, false
+	for i, e := range phi.Edges {
+		ref, _, isF := loadedField(e)
+		if !isF || ref.Owner != "tcell.tScreen" {
+			return 0, false
+		}
+		sel := ""
+		for _, a := range guardsOnEdge(phi.Block().Preds[i], phi.Block()) {
+			if a.L == h.Params[idx].Name() && a.Op == "==" {
+				sel = a.R
+			}
+		}
+		switch {
+		case ref.Name == "enableFocus" && sel == "true":
+			on = true
+		case ref.Name == "disableFocus" && sel == "false":
+			off = true
+		}
+	}
+	return idx, on && off
+}
+
+// togglerView: what a mode toggler does, in its own body or in helpers it is written with
+// (`EnableFocus() { t.setFocus(true) }`): the stores to the remembered field and the emissions, each
+// with the helper parameters replaced by the arguments actually passed, the conditions it sits under,
+// and whether a Lock of the screen precedes it.
+type tvSite struct {
+	d      deepInstr
+	val    string // stores: the stored value; emissions: the identity
+	arg    string // emissions through a call with an argument: that argument
+	locked bool
+}
+
+func togglerView(p *Prog, fn *ssa.Function, field string) (stores, emits []tvSite) {
+	deep := deepInstrs(p, fn, 2, func(call ssa.Instruction, _ *ssa.Function) bool { return len(emitIdents(p, call)) == 0 })
+	var locks []deepInstr
+	for _, d := range deep {
+		if isCallTo(d.in, "(*sync.Mutex).Lock") {
+			locks = append(locks, d)
+		}
+	}
+	locked := func(d deepInstr) bool {
+		for _, l := range locks {
+			if len(l.chain) == 0 && instrDominates(l.in, d.anchor) && l.in != d.anchor {
+				return true
+			}
+			if l.in.Parent() == d.in.Parent() && instrDominates(l.in, d.in) {
+				return true
+			}
+		}
+		return false
+	}
+	for _, d := range deep {
+		if st, ok := d.in.(*ssa.Store); ok {
+			if ref, _, isF := fieldAddrRef(st.Addr); isF && ref.Owner == "tcell.tScreen" && ref.Name == field {
+				stores = append(stores, tvSite{d: d, val: valName(d.bindVal(st.Val)), locked: locked(d)})
+			}
+		}
+		for _, id := range emitIdentsBound(p, d.in, d.bindVal) {
+			site := tvSite{d: d, val: id, locked: locked(d)}
+			if cc := callCommon(d.in); cc != nil && len(cc.Args) > 1 {
+				site.arg = valName(d.bindVal(cc.Args[1]))
+			}
+			emits = append(emits, site)
+		}
+	}
+	return
 }
 
 func checkC04(c *Ctx) {
@@ -453,7 +569,13 @@ func checkC04(c *Ctx) {
 	}
 	okFocus := false
 	for _, d := range engDeep {
-		if cc := callCommon(d.in); cc == nil || !strings.HasSuffix(calleeName(cc), "tScreen).enableFocusReporting") {
+		isOn := false
+		for _, id := range emitIdentsBound(p, d.in, d.bindVal) {
+			if id == "call:enableFocusReporting" {
+				isOn = true
+			}
+		}
+		if !isOn {
 			continue
 		}
 		for _, a := range d.atoms() {
@@ -491,18 +613,21 @@ func checkC04(c *Ctx) {
 			c.Undecided("C04-R3", tg.method, "-", "not found")
 			continue
 		}
-		sts := storesTo(fn, "tcell.tScreen", tg.field)
-		calls := callsIn(fn, func(n string, _ *ssa.CallCommon) bool { return strings.HasSuffix(n, "tScreen)."+tg.callee) })
+		sts, all := togglerView(p, fn, tg.field)
+		var calls []tvSite
+		for _, e := range all {
+			if strings.HasPrefix(e.val, "call:"+tg.callee) {
+				calls = append(calls, e)
+			}
+		}
 		ok := len(sts) == 1 && len(calls) == 1
 		detail := ""
 		if ok {
-			sv := valName(sts[0].Val)
+			sv := sts[0].val
 			detail = "stores " + sv
-			cc := callCommon(calls[0])
-			if len(cc.Args) > 1 {
-				cv := valName(cc.Args[1])
+			if cv := calls[0].arg; cv != "" && strings.Contains(calls[0].val, "(") {
 				detail += ", emits with " + cv
-				if sts[0].Val != cc.Args[1] && sv != cv {
+				if sv != cv {
 					ok = false
 				}
 				if tg.value != "" && cv != tg.value {
@@ -512,14 +637,8 @@ func checkC04(c *Ctx) {
 			if tg.value != "" && sv != tg.value {
 				ok = false
 			}
-			// both between Lock and Unlock: a Lock call dominates them, an Unlock is reachable after
-			locked := false
-			for _, l := range callsIn(fn, func(n string, _ *ssa.CallCommon) bool { return n == "(*sync.Mutex).Lock" }) {
-				if instrDominates(l, sts[0]) && instrDominates(l, calls[0]) {
-					locked = true
-				}
-			}
-			if !locked {
+			// both between Lock and Unlock: a Lock call precedes them
+			if !sts[0].locked || !calls[0].locked {
 				ok = false
 				detail += ", not under the lock"
 			}
@@ -545,9 +664,10 @@ func checkC04(c *Ctx) {
 			continue
 		}
 		bad, n := "", 0
-		for _, st := range storesTo(fn, "tcell.tScreen", tg.f) {
+		sts, _ := togglerView(p, fn, tg.f)
+		for _, st := range sts {
 			n++
-			for _, a := range guardsAt(st.Block()) {
+			for _, a := range st.d.atoms() {
 				if strings.HasPrefix(a.L, "t.") {
 					bad += "the store depends on " + a.String() + "; "
 				}
@@ -565,21 +685,19 @@ func checkC04(c *Ctx) {
 			continue
 		}
 		n, bad := 0, ""
-		eachInstr(fn, func(in ssa.Instruction) {
-			if len(emitIdents(p, in)) == 0 {
-				return
-			}
+		_, ems := togglerView(p, fn, "")
+		for _, e := range ems {
 			n++
 			gated := false
-			for _, a := range guardsAt(in.Block()) {
+			for _, a := range e.d.atoms() {
 				if a.L == "t.running" && ((a.Op == "==" && a.R == "true") || (a.Op == "!=" && a.R == "false")) {
 					gated = true
 				}
 			}
 			if !gated {
-				bad += "emission at " + p.pos(in.Pos()) + " is not behind the running test; "
+				bad += "emission at " + p.pos(e.d.in.Pos()) + " is not behind the running test; "
 			}
-		})
+		}
 		c.Check(n > 0 && bad == "", "C04-R6", m+":emits-only-while-running", p.pos(fn.Pos()), fmt.Sprintf("%d emission(s), each only on a running screen %s", n, bad))
 	}
 	if osc := p.Fn("tcell:(*tScreen).prepareExtendedOSC"); osc != nil {
